@@ -694,3 +694,244 @@ Proof.
   - reflexivity.
   - vm_compute. discriminate.
 Qed.
+
+(* ==================================================================================== *)
+(* 7. rooted trees: the bracket encoding is uniquely readable                            *)
+(* ==================================================================================== *)
+
+Definition is_delim (c : ascii) : bool :=
+  Ascii.eqb c "("%char || Ascii.eqb c ")"%char || Ascii.eqb c "/"%char || Ascii.eqb c ";"%char.
+
+(* the string contains none of ( ) / ; *)
+Fixpoint clean (s : string) : bool :=
+  match s with
+  | EmptyString => true
+  | String c s' => negb (is_delim c) && clean s'
+  end.
+
+Fixpoint clean_tree_b (t : tree) : bool :=
+  match t with T l cs => clean l && forallb clean_tree_b cs end.
+
+(* empty, or starting with a delimiter *)
+Definition sde (r : string) : Prop :=
+  match r with EmptyString => True | String c _ => is_delim c = true end.
+
+Lemma tree_ind' (P : tree -> Prop) :
+  (forall l cs, Forall P cs -> P (T l cs)) -> forall t, P t.
+Proof.
+  intros H. fix IH 1. intros [l cs]. apply H.
+  induction cs as [|c cs IHcs]; constructor; auto.
+Qed.
+
+Lemma append_assoc (a b c : string) : (a ++ b) ++ c = a ++ (b ++ c).
+Proof. induction a as [|x a IH]; simpl; auto. rewrite IH. reflexivity. Qed.
+
+Lemma append_nil_r (a : string) : a ++ "" = a.
+Proof. induction a as [|x a IH]; simpl; auto. rewrite IH. reflexivity. Qed.
+
+Lemma clean_split l1 : forall l2 r1 r2,
+  clean l1 = true -> clean l2 = true -> sde r1 -> sde r2 ->
+  l1 ++ r1 = l2 ++ r2 -> l1 = l2 /\ r1 = r2.
+Proof.
+  induction l1 as [|a l1 IH]; intros [|b l2] r1 r2 C1 C2 S1 S2 H; simpl in *.
+  - auto.
+  - subst r1. simpl in S1. rewrite S1 in C2. discriminate.
+  - subst r2. simpl in S2. rewrite S2 in C1. discriminate.
+  - injection H as E1 E2. subst b.
+    apply andb_true_iff in C1, C2. destruct C1 as [_ C1], C2 as [_ C2].
+    destruct (IH l2 r1 r2 C1 C2 S1 S2 E2). subst. auto.
+Qed.
+
+Definition items (cs : list tree) : list string := sort (map (fun c => enc c ++ ";") cs).
+
+Lemma enc_eq l cs :
+  enc (T l cs) = if is_nil cs then "/" ++ l
+                 else "(" ++ String.concat ";" (items cs) ++ ")" ++ "/" ++ l.
+Proof. destruct cs; reflexivity. Qed.
+
+Lemma items_nil_iff cs : items cs = [] <-> cs = [].
+Proof.
+  unfold items. rewrite sort_nil_iff. split; intros H.
+  - destruct cs; [auto|discriminate].
+  - subst. reflexivity.
+Qed.
+
+Lemma items_In cs e : In e (items cs) -> exists c, In c cs /\ e = enc c ++ ";".
+Proof.
+  unfold items. intros H. eapply Permutation_in in H; [|apply sort_permutation].
+  apply in_map_iff in H. destruct H as [c [E Hc]]. eauto.
+Qed.
+
+Lemma concat_cons2 sep x y l :
+  String.concat sep (x :: y :: l) = x ++ sep ++ String.concat sep (y :: l).
+Proof. reflexivity. Qed.
+
+(* prefix-freeness of the encoding of one tree (weak form used inside bodies) *)
+Definition PF (c : tree) : Prop :=
+  forall t2 r1 r2, clean_tree_b t2 = true -> sde r1 -> sde r2 ->
+                   enc c ++ r1 = enc t2 ++ r2 -> enc c = enc t2 /\ r1 = r2.
+
+Lemma sde_semi r : sde (";" ++ r).
+Proof. reflexivity. Qed.
+
+Lemma body_inj : forall L1 L2 tail1 tail2,
+  (forall e, In e L1 -> exists c, e = enc c ++ ";" /\ PF c) ->
+  (forall e, In e L2 -> exists c, e = enc c ++ ";" /\ clean_tree_b c = true) ->
+  L1 <> [] -> L2 <> [] ->
+  String.concat ";" L1 ++ ")" ++ tail1 = String.concat ";" L2 ++ ")" ++ tail2 ->
+  L1 = L2 /\ tail1 = tail2.
+Proof.
+  induction L1 as [|e1 L1 IH]; intros L2 tail1 tail2 H1 H2 N1 N2 H; [congruence|].
+  destruct L2 as [|e2 L2]; [congruence|].
+  destruct (H1 e1 (or_introl eq_refl)) as [c1 [E1 P1]].
+  destruct (H2 e2 (or_introl eq_refl)) as [c2 [E2 C2]].
+  subst e1 e2.
+  destruct L1 as [|e1' L1], L2 as [|e2' L2].
+  - cbn [String.concat] in H. rewrite !append_assoc in H.
+    destruct (P1 c2 _ _ C2 (sde_semi _) (sde_semi _) H) as [Ee Er].
+    injection Er as Er. rewrite Ee. auto.
+  - rewrite concat_cons2 in H. cbn [String.concat] in H. rewrite !append_assoc in H.
+    destruct (P1 c2 _ _ C2 (sde_semi _) (sde_semi _) H) as [Ee Er].
+    cbn [append] in Er. discriminate.
+  - rewrite concat_cons2 in H. cbn [String.concat] in H. rewrite !append_assoc in H.
+    destruct (P1 c2 _ _ C2 (sde_semi _) (sde_semi _) H) as [Ee Er].
+    cbn [append] in Er. discriminate.
+  - rewrite !concat_cons2 in H. rewrite !append_assoc in H.
+    destruct (P1 c2 _ _ C2 (sde_semi _) (sde_semi _) H) as [Ee Er].
+    assert (Er' : String.concat ";" (e1' :: L1) ++ ")" ++ tail1 =
+                  String.concat ";" (e2' :: L2) ++ ")" ++ tail2).
+    { cbn [append] in Er. injection Er as Er. exact Er. }
+    destruct (IH (e2' :: L2) tail1 tail2) as [EL Et];
+      [ intros e He; apply H1; right; exact He
+      | intros e He; apply H2; right; exact He
+      | discriminate | discriminate | exact Er' | ].
+    rewrite Ee, EL. auto.
+Qed.
+
+Lemma clean_tree_children l cs c : clean_tree_b (T l cs) = true -> In c cs -> clean_tree_b c = true.
+Proof.
+  simpl. intros H Hc. apply andb_true_iff in H. destruct H as [_ H].
+  rewrite forallb_forall in H. auto.
+Qed.
+
+Lemma clean_tree_label l cs : clean_tree_b (T l cs) = true -> clean l = true.
+Proof. simpl. intros H. apply andb_true_iff in H. tauto. Qed.
+
+(* unique readability: after the encoding of a tree nothing but its own label end can follow *)
+Lemma enc_prefix_free : forall t1, clean_tree_b t1 = true ->
+  forall t2 r1 r2, clean_tree_b t2 = true -> sde r1 -> sde r2 ->
+  enc t1 ++ r1 = enc t2 ++ r2 ->
+  (t_label t1 = t_label t2 /\ items (t_children t1) = items (t_children t2)) /\ r1 = r2.
+Proof.
+  induction t1 as [l1 cs1 IH] using tree_ind'. intros C1 [l2 cs2] r1 r2 C2 S1 S2 H.
+  rewrite !enc_eq in H. cbn [t_label t_children].
+  assert (IHpf : forall c, In c cs1 -> PF c).
+  { intros c Hc t2 s1 s2 Ct2 Ss1 Ss2 Hs.
+    rewrite Forall_forall in IH.
+    destruct (IH c Hc (clean_tree_children _ _ _ C1 Hc) t2 s1 s2 Ct2 Ss1 Ss2 Hs) as [[El Ei] Er].
+    split; auto. destruct c as [lc cc], t2 as [lt ct]. cbn [t_label t_children] in *.
+    rewrite !enc_eq. subst lt. rewrite Ei.
+    replace (is_nil ct) with (is_nil cc); auto.
+    destruct cc, ct; auto.
+    - symmetry in Ei. apply items_nil_iff in Ei. discriminate.
+    - apply items_nil_iff in Ei. discriminate. }
+  destruct cs1 as [|c1 cs1], cs2 as [|c2 cs2]; cbn [is_nil] in H.
+  - simpl in H. injection H as H.
+    destruct (clean_split l1 l2 r1 r2 (clean_tree_label _ _ C1) (clean_tree_label _ _ C2) S1 S2 H).
+    auto.
+  - simpl in H. discriminate.
+  - simpl in H. discriminate.
+  - rewrite !append_assoc in H. cbn [append] in H. injection H as H.
+    assert (Ha : forall e, In e (items (c1 :: cs1)) -> exists c, e = enc c ++ ";" /\ PF c).
+    { intros e He. apply items_In in He. destruct He as [c [Hc E]]. exists c. split; auto. }
+    assert (Hb : forall e, In e (items (c2 :: cs2)) -> exists c, e = enc c ++ ";" /\ clean_tree_b c = true).
+    { intros e He. apply items_In in He. destruct He as [c [Hc E]]. exists c. split; auto.
+      eapply clean_tree_children; eauto. }
+    assert (Hc : items (c1 :: cs1) <> []) by (intros E; apply items_nil_iff in E; discriminate).
+    assert (Hd : items (c2 :: cs2) <> []) by (intros E; apply items_nil_iff in E; discriminate).
+    destruct (body_inj _ _ ("/" ++ l1 ++ r1) ("/" ++ l2 ++ r2) Ha Hb Hc Hd H) as [EL Et].
+    cbn [append] in Et. injection Et as Et.
+    destruct (clean_split l1 l2 r1 r2 (clean_tree_label _ _ C1) (clean_tree_label _ _ C2) S1 S2 Et).
+    auto.
+Qed.
+
+Lemma enc_inj_parts l1 cs1 l2 cs2 :
+  clean_tree_b (T l1 cs1) = true -> clean_tree_b (T l2 cs2) = true ->
+  enc (T l1 cs1) = enc (T l2 cs2) -> l1 = l2 /\ items cs1 = items cs2.
+Proof.
+  intros C1 C2 H.
+  destruct (enc_prefix_free _ C1 _ "" "" C2 I I) as [[E1 E2] _]; auto.
+  rewrite !append_nil_r. exact H.
+Qed.
+
+(* custom induction principle for the nested inductive tiso *)
+Fixpoint tiso_ind' (P : tree -> tree -> Prop)
+  (H : forall l cs cs' cs'', Permutation cs' cs'' -> Forall2 tiso cs cs'' -> Forall2 P cs cs'' ->
+                            P (T l cs) (T l cs'))
+  (t t' : tree) (h : tiso t t') {struct h} : P t t' :=
+  match h with
+  | tiso_node l cs cs' cs'' p f =>
+      H l cs cs' cs'' p f
+        ((fix go (a b : list tree) (f : Forall2 tiso a b) {struct f} : Forall2 P a b :=
+            match f with
+            | Forall2_nil _ => Forall2_nil _
+            | Forall2_cons x y h1 f1 => Forall2_cons x y (tiso_ind' P H x y h1) (go _ _ f1)
+            end) cs cs'' f)
+  end.
+
+Lemma Forall2_enc_map l l' :
+  Forall2 (fun a b => enc a = enc b) l l' ->
+  map (fun c => enc c ++ ";") l = map (fun c => enc c ++ ";") l'.
+Proof. induction 1; simpl; auto. rewrite H, IHForall2. reflexivity. Qed.
+
+(* isomorphic trees have the same encoding (labels arbitrary) *)
+Lemma tiso_enc t t' : tiso t t' -> enc t = enc t'.
+Proof.
+  intros h. induction h as [l cs cs' cs'' P F IH] using tiso_ind'.
+  rewrite !enc_eq.
+  assert (Em : map (fun c => enc c ++ ";") cs = map (fun c => enc c ++ ";") cs'').
+  { apply Forall2_enc_map. exact IH. }
+  assert (Ei : items cs = items cs').
+  { unfold items. rewrite Em. apply sort_perm. apply Permutation_map. apply Permutation_sym. exact P. }
+  rewrite Ei. replace (is_nil cs') with (is_nil cs); auto.
+  destruct cs, cs'; auto.
+  - symmetry in Ei. apply items_nil_iff in Ei. discriminate.
+  - apply items_nil_iff in Ei. discriminate.
+Qed.
+
+(* T2 core: on trees whose labels avoid the delimiters the encoding determines the tree up
+   to isomorphism *)
+Lemma enc_tiso : forall t1, clean_tree_b t1 = true -> forall t2, clean_tree_b t2 = true ->
+  enc t1 = enc t2 -> tiso t1 t2.
+Proof.
+  induction t1 as [l1 cs1 IH] using tree_ind'. intros C1 [l2 cs2] C2 H.
+  destruct (enc_inj_parts _ _ _ _ C1 C2 H) as [El Ei]. subst l2.
+  unfold items in Ei.
+  assert (P : Permutation (map (fun c => enc c ++ ";") cs1) (map (fun c => enc c ++ ";") cs2)).
+  { eapply perm_trans; [apply Permutation_sym, sort_permutation|].
+    rewrite Ei. apply sort_permutation. }
+  apply Permutation_map_inv in P. destruct P as [cs2' [Em P2]].
+  apply (tiso_node l1 cs1 cs2 cs2' P2).
+  assert (C2' : forall c, In c cs2' -> clean_tree_b c = true).
+  { intros c Hc. eapply clean_tree_children; eauto. eapply Permutation_in; [apply Permutation_sym; eauto|auto]. }
+  clear P2 Ei H. revert cs2' Em C2'.
+  induction cs1 as [|c cs1 IHcs]; intros [|c' cs2'] Em C2'; simpl in Em; try discriminate; constructor.
+  - injection Em as E1 E2.
+    assert (Cc : clean_tree_b c = true) by (eapply clean_tree_children; [exact C1|left; reflexivity]).
+    assert (Cc' : clean_tree_b c' = true) by (apply C2'; left; reflexivity).
+    inversion IH as [|? ? Hc Hrest]; subst. apply Hc; auto.
+    destruct (enc_prefix_free c Cc c' ";" ";" Cc' eq_refl eq_refl E1) as [[El Ei] _].
+    destruct c as [lc cc], c' as [lc' cc']. cbn [t_label t_children] in *. subst lc'.
+    rewrite !enc_eq, Ei. replace (is_nil cc') with (is_nil cc); auto.
+    destruct cc, cc'; auto.
+    + symmetry in Ei. apply items_nil_iff in Ei. discriminate.
+    + apply items_nil_iff in Ei. discriminate.
+  - injection Em as E1 E2. inversion IH as [|? ? Hc Hrest]; subst. apply IHcs; auto.
+    + simpl in C1. simpl. apply andb_true_iff in C1. destruct C1 as [Cl Cc].
+      simpl in Cc. apply andb_true_iff in Cc. rewrite Cl. tauto.
+    + intros x Hx. apply C2'. right; auto.
+Qed.
+
+Theorem tree_enc_iff_tiso t1 t2 :
+  clean_tree_b t1 = true -> clean_tree_b t2 = true -> (enc t1 = enc t2 <-> tiso t1 t2).
+Proof. intros C1 C2. split; [apply enc_tiso; auto|apply tiso_enc]. Qed.
